@@ -1,3 +1,4 @@
+import Secp.Proofs.DriversAdaptor
 import Secp.Proofs.Adaptor
 import Secp.Props.C03
 import Secp.Proofs.Slices
@@ -64,5 +65,43 @@ theorem double_spec_unconditional (p : Nat × Nat) (hP : Operand p) :
     `contracts_justified`) this is what makes the value-level model above faithful to the limb code. -/
 theorem adaptor_field_arithmetic_exact :
     Secp.Proofs.Slices.entriesOK ["github.com/ModChain/secp256k1.KoblitzCurve.Add", "github.com/ModChain/secp256k1.KoblitzCurve.Double", "github.com/ModChain/secp256k1.KoblitzCurve.ScalarMult", "github.com/ModChain/secp256k1.KoblitzCurve.ScalarBaseMult", "github.com/ModChain/secp256k1.KoblitzCurve.IsOnCurve", "github.com/ModChain/secp256k1.bigAffineToJacobian", "github.com/ModChain/secp256k1.jacobianToBigAffine", "github.com/ModChain/secp256k1.PublicKey.X", "github.com/ModChain/secp256k1.PublicKey.Y", "github.com/ModChain/secp256k1.PublicKey.ToECDSA", "github.com/ModChain/secp256k1.PrivateKey.ToECDSA"] = true := by decide +kernel
+
+/-! ### Regenerated drivers (tools/gotr pass T8)
+
+`Secp.Gen.Drivers` is REGENERATED from /repo on every check run: the Go functions below translated
+statement by statement into Lean terms over the value-level primitives.  The theorems say the
+regenerated definitions EQUAL the hand-written models the theorems above are about. -/
+
+/-- `curve.IsOnCurve` regenerated = the model, for ALL big integers -/
+theorem isOnCurve_regenerated (x y : Nat) : Secp.Gen.Drivers.adaptorIsOnCurveGen x y = adaptorIsOnCurve x y :=
+  Secp.Proofs.DriversAdaptor.isOnCurve_regenerated x y
+
+/-- `curve.Add` regenerated = the model on the property's domain (coordinates below P) -/
+theorem add_regenerated (x1 y1 x2 y2 : Nat) (h1 : x1 < P) (h2 : y1 < P) (h3 : x2 < P) (h4 : y2 < P) :
+    Secp.Gen.Drivers.adaptorAddGen x1 y1 x2 y2 = adaptorAdd (x1, y1) (x2, y2) :=
+  Secp.Proofs.DriversAdaptor.add_regenerated x1 y1 x2 y2 h1 h2 h3 h4
+
+/-- … and the range hypotheses are NECESSARY: outside [0,P) the code compares raw values (kernel-checked witnesses) -/
+theorem add_needs_range :
+    Secp.Gen.Drivers.adaptorAddGen (P + 3) 7 3 7 ≠ adaptorAdd (P + 3, 7) (3, 7) :=
+  Secp.Proofs.DriversAdaptor.add_needs_x1
+
+/-- `curve.Double` regenerated = the model, for ALL big integers -/
+theorem double_regenerated (x y : Nat) : Secp.Gen.Drivers.adaptorDoubleGen x y = adaptorDouble (x, y) :=
+  Secp.Proofs.DriversAdaptor.double_regenerated' x y
+
+/-- `curve.ScalarMult` regenerated = the model (point coordinates below P, scalar bytes of any length) -/
+theorem scalarMult_regenerated (x y : Nat) (k : Bytes) (hx : x < P) (hy : y < P) :
+    Secp.Gen.Drivers.adaptorScalarMultGen x y k = adaptorScalarMult (x, y) k :=
+  Secp.Proofs.DriversAdaptor.scalarMult_regenerated x y k hx hy
+
+/-- `curve.ScalarBaseMult` regenerated = the model, for ALL byte strings -/
+theorem scalarBaseMult_regenerated (k : Bytes) : Secp.Gen.Drivers.adaptorScalarBaseMultGen k = adaptorBaseMult k :=
+  Secp.Proofs.DriversAdaptor.scalarBaseMult_regenerated k
+
+/-- `PublicKey.X()` / `Y()` regenerated -/
+theorem pubKeyXY_regenerated (p : Nat × Nat) (hx : p.1 < 2^256) (hy : p.2 < 2^256) :
+    Secp.Gen.Drivers.pubKeyX p = p.1 ∧ Secp.Gen.Drivers.pubKeyY p = p.2 :=
+  ⟨Secp.Proofs.DriversAdaptor.pubKeyX_regenerated p hx, Secp.Proofs.DriversAdaptor.pubKeyY_regenerated p hy⟩
 
 end Secp.Props.C15
